@@ -1,7 +1,267 @@
 import Driver.Util
-/-! Line-protocol driver for C11 (not built yet). -/
+import Std.Data.HashSet
+import GqlgenVerif.Model.Ws
+import GqlgenVerif.Model.WsSpec
+/-!
+Line-protocol driver for C11.
+
+One input line = one output line of `go/harness/c11` (tab separated):
+`<proto> <cfg> <steps…> \t F <frames…> \t S <snapshot> … \t Z <final snapshot>`.
+
+Output: `member` when the observed frames / snapshots are producible by `Ws.fire` for that script
+(a depth-first search over the interleavings of the model's internal steps between the scripted
+environment actions, with the observed frame sequence as the pruning oracle), otherwise
+`nonmember item=<furthest script item reached> frames=<most frames matched>`; followed by
+` spec=<ok | violates:<what>>`, the property evaluated directly on what the implementation showed.
+-/
+open GqlgenVerif GqlgenVerif.Ws GqlgenVerif.Gen.WsTables
 namespace Driver.C11
-def step (_line : String) : String := "bad-op"
+
+structure Snap where
+  n : Nat
+  ops : List (Nat × Bool × Bool)   -- tag, ctx done, handler finished
+  cf : List Nat
+  cc : String
+  dup : Bool
+  deriving Repr, Inhabited
+
+inductive Item
+  | env (a : Action) (barrier : Bool)
+  | deliver (tag : Nat) (c : Cmd) (delivered : Bool) (barrier : Bool)
+  | timeout (barrier : Bool)
+  | snap (o : Snap)
+  | cleanup                          -- the harness releases every operation and drops the client
+  deriving Repr, Inhabited
+
+def parsePayload : String → Payload
+  | "num" => .num | "obj" => .obj | "rej" => .rej | "sub" => .sub | "badq" => .badq | "pq" => .pq
+  | _ => .none
+
+def parseCmd : String → Cmd
+  | "emit" => .emit | "adderr" => .adderr | "err" => .finish .err | "panic" => .finish .panic
+  | _ => .finish .normal
+
+def parseCfg (proto cfg : String) : Cfg :=
+  let p := if proto = "tws" then Proto.tws else Proto.gqlws
+  let has (c : Char) := cfg.toList.contains c
+  let ticks := match p with
+    | .gqlws => if has 'k' then [MT.keepAlive] else []
+    | .tws => (if has 'o' then [MT.pong] else []) ++ (if has 'p' then [MT.ping] else [])
+  { proto := p, ticks := ticks, stubborn := has 's', closeReason := has 'r', initTimeout := has 't' }
+
+def kv (s : String) (key : String) : String :=
+  match (s.splitOn " ").find? (fun t => t.startsWith (key ++ "=")) with
+  | some t => (t.drop (key.length + 1)).toString
+  | none => ""
+
+def parseSnap (s : String) : Snap :=
+  let ops := ((kv s "ops").splitOn ",").filterMap fun t =>
+    match t.splitOn "/" with
+    | [a, b, c] => some (a.toNat!, b == "1", c == "1")
+    | _ => none
+  let cf := ((kv s "cf").splitOn ",").filterMap fun t => t.toNat?
+  { n := (kv s "n").toNat!, ops := ops, cf := cf, cc := kv s "cc", dup := (s.splitOn " ").contains "dupexec" }
+
+def parseItems (toks : List String) (snaps : List Snap) : List Item :=
+  let rec go (toks : List String) (snaps : List Snap) (acc : List Item) : List Item :=
+    match toks with
+    | [] =>
+      match snaps with
+      | [mid, fin] => (Item.snap fin :: Item.cleanup :: Item.snap mid :: acc).reverse
+      | _ => acc.reverse
+    | t :: rest =>
+      let race := t.endsWith "~"
+      let t := if race then (t.dropEnd 1).toString else t
+      let p := t.splitOn ":"
+      match p with
+      | ["?"] =>
+        match snaps with
+        | sn :: more => go rest more (.snap sn :: acc)
+        | [] => go rest snaps acc
+      | ["m", w, id, pl, tag] =>
+        let id := if id = "-" then "" else id
+        go rest snaps (.env (.clientSend (.msg w id (parsePayload pl) tag.toNat!)) (!race) :: acc)
+      | ["g"] => go rest snaps (.env (.clientSend .garbage) (!race) :: acc)
+      | ["a"] => go rest snaps (.env (.clientSend .eof) (!race) :: acc)
+      | ["z"] => go rest snaps (.env (.clientSend .eof) (!race) :: acc)
+      | ["sc"] => go rest snaps (.env .serverCancel (!race) :: acc)
+      | ["it"] => go rest snaps (.timeout (!race) :: acc)
+      | ["r", c, tag, d] => go rest snaps (.deliver tag.toNat! (parseCmd c) (d == "d") (!race) :: acc)
+      | _ => go rest snaps acc
+  go toks snaps []
+
+def frameStr (w id info : String) : String := s!"{w}:{if id.isEmpty then "-" else id}:{info}"
+
+structure Ctx where
+  cfg : Cfg
+  frames : Array String
+  tickWires : List String
+
+/-- apply one model action; the frames it writes must be the next observed ones (unless the client is gone) -/
+def apply (cx : Ctx) (a : Action) (s : State) (fi : Nat) (gone : Bool) : Option (State × Nat) :=
+  match fire cx.cfg a s with
+  | none => none
+  | some s' =>
+    let new := s'.trace.drop s.trace.length
+    let rec chk (evs : List Ev) (fi : Nat) : Option Nat :=
+      match evs with
+      | [] => some fi
+      | .frame _ w id info :: rest =>
+        if gone then chk rest fi
+        else if cx.frames[fi]? == some (frameStr w id info) then chk rest (fi + 1) else none
+      | _ :: rest => chk rest fi
+    (chk new fi).map fun fi' => (s', fi')
+
+def internalActions (s : State) : List Action :=
+  [Action.recv, .sec, .readErr, .watch] ++ s.ops.flatMap fun o => if o.done then [] else [Action.opStep o.inst, .opCancel o.inst]
+
+def stable (cx : Ctx) (s : State) : Bool :=
+  (internalActions s).all fun a => (fire cx.cfg a s).isNone
+
+def closeFuncs (s : State) : List Nat := s.trace.filterMap fun | .closeFunc c => some c | _ => none
+def closeFrames (s : State) : List Nat := s.trace.filterMap fun | .closeFrame c => some c | _ => none
+
+def snapOK (o : Snap) (s : State) (fi : Nat) (gone : Bool) : Bool :=
+  let mops := (s.ops.map fun p => (p.tag, (p.cancelled || s.connCancelled), p.done)).mergeSort (fun a b => a.1 ≤ b.1)
+  let cc := if gone then "gone" else match closeFrames s with
+    | c :: _ => toString c
+    | [] => "open"
+  !o.dup && (gone || o.n == fi) && mops == o.ops && closeFuncs s == o.cf && (o.cc == cc)
+
+structure Key where
+  pos : Nat
+  fi : Nat
+  gone : Bool
+  bar : Bool
+  clean : Bool
+  st : State
+  deriving BEq, Hashable
+
+structure Memo where
+  seen : Std.HashSet Key := {}
+  bestItem : Nat := 0
+  bestFrames : Nat := 0
+  fuel : Nat := 400000
+
+/-- depth-first search.  `bar`: the previous script item asked for a settle, so the model must be
+stable before the next item; `clean`: the harness is winding the session down (it hands `end` to every
+operation that is still waiting). -/
+partial def search (cx : Ctx) (items : Array Item) (pos : Nat) (s : State) (fi : Nat) (gone bar clean : Bool) :
+    StateM Memo Bool := do
+  let m ← get
+  let key : Key := { pos, fi, gone, bar, clean, st := s }
+  if m.seen.contains key || m.fuel == 0 then return false
+  set { m with seen := m.seen.insert key, fuel := m.fuel - 1,
+               bestItem := max m.bestItem pos, bestFrames := max m.bestFrames fi }
+  let isStable := stable cx s
+  -- (1) the next script item
+  let mut ok := false
+  if !bar || isStable then
+    if h : pos < items.size then
+      match items[pos] with
+      | .env a b =>
+        let gone' := gone || (match a with | .clientSend .eof => true | _ => false)
+        match apply cx a s fi gone with
+        | some (s', fi') => ok ← search cx items (pos + 1) s' fi' gone' b clean
+        | none => pure ()
+      | .deliver tag c d b =>
+        if !d then ok ← search cx items (pos + 1) s fi gone b clean
+        else
+          match s.ops.find? (fun o => o.tag == tag && !o.done) with
+          | some o =>
+            match apply cx (.deliver o.inst c) s fi gone with
+            | some (s', fi') => ok ← search cx items (pos + 1) s' fi' gone b clean
+            | none => pure ()
+          | none => pure ()
+      | .timeout b =>
+        if cx.cfg.initTimeout && s.rpc == .awaitInit then
+          match apply cx .initTimeout s fi gone with
+          | some (s', fi') => ok ← search cx items (pos + 1) s' fi' gone b clean
+          | none => pure ()
+        else ok ← search cx items (pos + 1) s fi gone b clean
+      | .snap o =>
+        if isStable && snapOK o s fi gone then ok ← search cx items (pos + 1) s fi gone true clean
+      | .cleanup =>
+        match apply cx (.clientSend .eof) s fi gone with
+        | some (s', fi') => ok ← search cx items (pos + 1) s' fi' true false true
+        | none => pure ()
+    else
+      ok := isStable && (gone || fi == cx.frames.size)
+  if ok then return true
+  -- (2) an internal step of the model
+  let mut acts := internalActions s
+  if clean then
+    acts := acts ++ s.ops.flatMap fun o => if o.done then [] else [Action.deliver o.inst (.finish .normal)]
+  if cx.cfg.initTimeout && s.rpc == .awaitInit then acts := acts ++ [.initTimeout]
+  -- a ticker frame, only when the next observed frame is one
+  if !gone then
+    match cx.frames[fi]? with
+    | some f => if cx.tickWires.any (fun w => f == frameStr w "" "-") then acts := acts ++ cx.cfg.ticks.map Action.tick
+    | none => pure ()
+  for a in acts do
+    match apply cx a s fi gone with
+    | some (s', fi') =>
+      if ← search cx items pos s' fi' gone bar clean then return true
+    | none => pure ()
+  return false
+
+/-- the property, evaluated directly on what the implementation showed for this script -/
+def obsSpec (cfg : Cfg) (items : List Item) (frames : List String) (final : Option Snap) : String :=
+  let parsed := frames.map fun f => match f.splitOn ":" with
+    | [w, id, info] => (w, id, info)
+    | _ => ("?", "-", "-")
+  let dataW := (cfg.proto.fromMessage .data).join.getD "?"
+  let errW := (cfg.proto.fromMessage .error).join.getD "?"
+  let complW := (cfg.proto.fromMessage .complete).join.getD "?"
+  let ackW := (cfg.proto.fromMessage .connectionAck).join.getD "?"
+  let opFrame := fun (w : String) => w == dataW || w == errW || w == complW
+  -- nothing of an operation before the ack
+  let beforeAck := parsed.takeWhile (fun f => f.1 != ackW)
+  if beforeAck.any (fun f => opFrame f.1) then "violates:operation-frame-before-ack" else
+  let starts := items.filterMap fun
+    | .env (.clientSend (.msg w id _ _)) _ => if cfg.proto.toMessage w == some .start then some (if id.isEmpty then "-" else id) else none
+    | _ => none
+  let ids := (parsed.filter (fun f => opFrame f.1)).map (·.2.1) |>.eraseDups
+  let bad := ids.findSome? fun id =>
+    let fs := (parsed.filter (fun f => f.2.1 == id && opFrame f.1))
+    let nStart := (starts.filter (· == id)).length
+    let spec := Spec.clientView dataW errW complW (fs.map fun f => (f.1, f.2.2)) nStart
+    if spec == "ok" then none else some s!"violates:{spec}:id={id}"
+  match bad with
+  | some b => b
+  | none =>
+    match final with
+    | some z =>
+      if z.cf.length != 1 then s!"violates:close-callback-count={z.cf.length}"
+      else if z.ops.any (fun o => !o.2.1) then "violates:operation-context-not-cancelled-after-close"
+      else if z.dup then "violates:operation-executed-twice"
+      else "ok"
+    | none => "ok"
+
+def step (line : String) : String :=
+  match line.splitOn "\t" with
+  | script :: fr :: rest =>
+    let toks := (script.splitOn " ").filter (· ≠ "")
+    match toks with
+    | proto :: cfgS :: steps =>
+      let cfg := parseCfg proto cfgS
+      let frames := ((fr.drop 2).toString.splitOn " ").filter (fun t => t ≠ "" && t ≠ "-")
+      let snaps := rest.map fun r => parseSnap (r.drop 2).toString
+      let nq := (steps.filter (· == "?")).length
+      if snaps.length != nq + 2 then "bad-line" else
+      let (qs, tail) := (snaps.take nq, snaps.drop nq)
+      let items := parseItems steps (qs ++ tail)
+      -- parseItems consumes the `?` snapshots in order and leaves [mid, final] for the end
+      let tickWires := cfg.ticks.filterMap fun t => (cfg.proto.fromMessage t).join
+      let cx : Ctx := { cfg, frames := frames.toArray, tickWires }
+      let (ok, memo) := (search cx items.toArray 0 State.initial 0 false false false).run {}
+      let spec := obsSpec cfg items frames tail.getLast?
+      let verdict := if ok then "member" else
+        s!"nonmember item={memo.bestItem} frames={memo.bestFrames}{if memo.fuel == 0 then " fuel-exhausted" else ""}"
+      s!"{verdict} spec={spec}"
+    | _ => "bad-line"
+  | _ => "bad-line"
+
 end Driver.C11
 
 def main : IO Unit := do
